@@ -888,3 +888,48 @@ def r18_division_digit_shortcuts_are_strict(ck, P, rid='C11-R18'):
                 ck.ok(R, where, 'strict shortcut' if short else 'always divided')
     if n == 0:
         raise AnalysisBroken('%s: no digit step (X / D with X %% D) found in pixman-matrix.c' % rid)
+
+
+def r19_division_guarded_by_its_zero_test(ck, P, rid='C11-R19'):
+    """T-ORD / T-GRD: where a function compares a floating-point value with 0 in order to refuse it (a singular matrix), every division by
+    that value lies behind the test.  Dividing first turns 0 into infinity, the test no longer fires, and the singular input is accepted."""
+    R = ck.rule(rid, 'in pixman-matrix.c every floating-point division whose divisor is also compared with 0.0 in the same function is reached only through the edge on which that comparison found it non-zero: with det = 1 / det ahead of the test, a singular matrix has det = inf, passes `det == 0`, and pixman_f_transform_invert returns TRUE with a matrix of inf and NaN', floor=1)
+    u = P.units.get('pixman-matrix.c')
+    if u is None:
+        raise AnalysisBroken('%s: pixman-matrix.c not compiled' % rid)
+    n = 0
+    for fn, f in sorted(u.functions.items()):
+        zero_tests = {}
+        for t in f.insts():
+            if t.op == 'fcmp' and any(a[0] == 'fc' and float(a[1]) == 0.0 for a in t.a):
+                other = [a for a in t.a if a[0] == 'v']
+                if other:
+                    zero_tests.setdefault(other[0][1], []).append(t)
+        # the tested value may be re-defined (det = 1 / det): follow the tested values and the values they were computed from
+        for d in f.insts():
+            if d.op != 'fdiv' or d.a[1][0] != 'v':
+                continue
+            V = d.a[1][1]
+            tests = list(zero_tests.get(V, []))
+            # det == 0 tested on the quotient itself (the swapped order): the divisor is an operand of the tested value
+            late = [t for vid, ts in zero_tests.items() for t in ts if f.by_id[vid] is d]
+            if not tests and not late:
+                continue
+            n += 1; ck.saw(f)
+            ok = False
+            for br, s in f.guard_edges(d.bb.id):
+                if br.op != 'br' or not br.a:
+                    continue
+                c = f.v(br.a[0])
+                if c in tests:
+                    truth = br.d['succ'][0] == s
+                    nonzero = (c.pred in ('oeq', 'ueq') and not truth) or (c.pred in ('one', 'une') and truth)
+                    if nonzero:
+                        ok = True
+            where = '%s: division at %s' % (fn, d.loc())
+            if ok:
+                ck.ok(R, where, 'behind the zero test of its divisor')
+            else:
+                ck.violation(R, fn, 'division ahead of the zero test', '%s divides by a value (%s) that it compares with 0.0 to refuse singular input, but the division is not behind that test (the test looks at the quotient, or comes later): 1 / 0 is infinity, the comparison with 0 fails, and the function reports success with infinities and NaNs in the result' % (fn, d.loc()), d.loc())
+    if n == 0:
+        raise AnalysisBroken('%s: no division by a zero-tested value found in pixman-matrix.c' % rid)
